@@ -328,4 +328,63 @@ Section Walk.
           now inversion Hi'.
       + exists x. split; [exact HR|reflexivity].
   Qed.
+  Lemma phone_headed_terminated (x tail : str) (syl : list str) :
+    syl <> [] -> Forall good_phone syl -> phone_headed (terminated x syl ++ tail).
+  Proof.
+    intros Hn H. destruct H as [|ph syl Hp _]; [congruence|].
+    exists ph, (x ++ terminated x syl ++ tail). split; [|exact Hp].
+    now rewrite terminated_cons, <- !app_assoc.
+  Qed.
+
+  (* a complete syllable [ph1 x ... phn x y] followed by another phone: nothing is cut *)
+  Lemma walk_syl_mid (x y rest : str) (syl : list str) :
+    In x regions -> In (x ++ y) regions ->
+    syl <> [] -> Forall good_phone syl -> phone_headed rest ->
+    strip_suffix seps (terminated x syl ++ y ++ rest)
+    = terminated x syl ++ y ++ strip_suffix seps rest.
+  Proof.
+    intros Rx Rxy Hn H Hr. induction syl as [|ph syl IH]; [congruence|].
+    inversion H as [|? ? Hp H']; subst.
+    rewrite terminated_cons, <- !app_assoc, walk_phone by apply Hp. f_equal.
+    destruct syl as [|q syl].
+    - rewrite terminated_nil. cbn [app].
+      rewrite (app_assoc x y rest), (walk_region [] (x ++ y)); [now rewrite <- app_assoc|exact Hr|].
+      exists (x ++ y). split; [exact Rxy|reflexivity].
+    - rewrite (walk_region [] x).
+      + f_equal. apply IH; [discriminate|exact H'].
+      + apply phone_headed_terminated; [discriminate|exact H'].
+      + exists x. split; [exact Rx|reflexivity].
+  Qed.
+
+  Lemma phone_headed_body (x y : str) (w : list (list str)) :
+    w <> [] -> Forall (fun syl : list str => syl <> [] /\ Forall good_phone syl) w ->
+    phone_headed (terminated y (map (terminated x) w)).
+  Proof.
+    intros Hn H. destruct H as [|syl w [Hs Hp] _]; [congruence|].
+    cbn [map]. rewrite terminated_cons. now apply phone_headed_terminated.
+  Qed.
+
+  (* a whole word [S1 y S2 y ... Sn y], Sk = [ph x ph x ...]: exactly the final [x y] is cut *)
+  Lemma walk_body (x y : str) (winit : list (list str)) (sinit : list str) (ph : str) :
+    In x seps -> In y seps -> In x regions -> In (x ++ y) regions ->
+    Forall (fun syl : list str => syl <> [] /\ Forall good_phone syl) winit ->
+    Forall good_phone sinit -> good_phone ph ->
+    strip_suffix seps (terminated y (map (terminated x) (winit ++ [sinit ++ [ph]])))
+    = terminated y (map (terminated x) winit) ++ terminated x sinit ++ ph.
+  Proof.
+    intros Sx Sy Rx Rxy Hw Hs Hp. induction winit as [|syl winit IH].
+    - cbn [app map]. rewrite terminated_one, terminated_nil. cbn [app].
+      apply walk_terminated_last; try assumption.
+      rewrite <- (app_nil_r y). apply sw_sep; [exact Sy| |constructor].
+      exact (proj1 (Forall_forall _ _) seps_ne y Sy).
+    - inversion Hw as [|? ? [Hn Hg] Hw']; subst.
+      cbn [app map]. rewrite !terminated_cons, <- !app_assoc.
+      rewrite walk_syl_mid; try assumption.
+      + now rewrite IH.
+      + apply phone_headed_body.
+        * destruct winit; discriminate.
+        * apply Forall_app. split; [exact Hw'|]. constructor; [|constructor]. split.
+          -- destruct sinit; discriminate.
+          -- apply Forall_app. split; [exact Hs|]. now constructor.
+  Qed.
 End Walk.
